@@ -507,13 +507,22 @@ fn main() {
         std::process::exit(2);
     }
     let jobs: usize = args.get(3).and_then(|s| s.parse().ok()).unwrap_or(8);
-    let offers = read_ndjson(&args[1]);
+    // offers are streamed (an exhaustive two-section run has several hundred thousand of them)
+    let offers = {
+        use std::io::BufRead;
+        let f = std::fs::File::open(&args[1]).unwrap_or_else(|e| panic!("open {}: {e}", args[1]));
+        std::io::BufReader::new(f)
+            .lines()
+            .map(|l| l.expect("read line"))
+            .filter(|l| !l.trim().is_empty())
+            .map(|l| serde_json::from_str::<Value>(&l).unwrap_or_else(|e| panic!("bad offer line: {e}")))
+    };
     let mut out = NdjsonOut::create(&args[2]);
     let rt = tokio::runtime::Builder::new_multi_thread().worker_threads(jobs).enable_all().build().unwrap();
     rt.block_on(async {
         let sem = Arc::new(tokio::sync::Semaphore::new(jobs * 2));
         let mut handles = std::collections::VecDeque::new();
-        for (i, rec) in offers.into_iter().enumerate() {
+        for (i, rec) in offers.enumerate() {
             let permit = sem.clone().acquire_owned().await.unwrap();
             handles.push_back(tokio::spawn(async move {
                 let r = run_one(i + 1, rec).await;
